@@ -310,7 +310,7 @@ theorem computeDfdv_succ (st : St) (bid fuel : Nat) (lm : Array Rat) (post : Arr
 
 section Rec
 variable {st : St} (hinv : Inv st) (hstat : BlockStationary st)
-  (hs : ∀ i : Nat, (st.vars[i]!).scale ≠ 0)
+  (hs : ∀ i : Nat, i < st.vars.size → (st.vars[i]!).scale ≠ 0)
 
 /-- `lm'` arises from `lm` by overwriting some entries of active constraints with their multiplier -/
 def Keep (st : St) (lm lm' : Array Rat) : Prop :=
@@ -395,7 +395,7 @@ end Rec
 
 section Main
 variable {st : St} (hinv : Inv st) (hstat : BlockStationary st)
-  (hs : ∀ i : Nat, (st.vars[i]!).scale ≠ 0)
+  (hs : ∀ i : Nat, i < st.vars.size → (st.vars[i]!).scale ≠ 0)
 include hinv
 
 /-- for an active constraint leaving `v`: the recursion follows it iff it is not the parent constraint -/
@@ -466,7 +466,7 @@ theorem dfdv_spec (bid : Nat) : ∀ (fuel : Nat) (lm : Array Rat) (post : Array 
     have hf := forest_of_inv hinv
     rw [computeDfdv_succ] at hok ⊢
     simp only at hok ⊢
-    have hsv := hs v
+    have hsv := hs v hv
     -- one step over an `out` constraint
     have okOut : ∀ (acc : Acc) (ci : Nat), (dOut st bid fuel v u acc ci).2.2.2 = true → acc.2.2.2 = true := by
       intro acc ci h
@@ -674,7 +674,7 @@ end Main
 
 section Root
 variable {st : St} (hinv : Inv st) (hstat : BlockStationary st)
-  (hs : ∀ i : Nat, (st.vars[i]!).scale ≠ 0)
+  (hs : ∀ i : Nat, i < st.vars.size → (st.vars[i]!).scale ≠ 0)
 include hinv hstat hs
 
 /-- the recursion started at any variable `v0` of block `bid` (as `findMinLM` / `findMinLMBetween` do,
